@@ -74,6 +74,23 @@ CLAIMED = {
          "7 C16", TB + "ColumnWidget only as used by CheckboxWidget; negative draw columns (CenterWidget with an over-wide child) are outside the model and not compared."),
 }
 CLAIMED.update(CLAIMED_SESSION)
+# later rounds: further theorem files and what they add (DESIGN.md section 16)
+LATER = {
+ "C04": " After the repair F11 a close request is an ideal close that is refused unless it names the top screen (C04_refused_close_keeps_stack).",
+ "C05": " After the repair F11 the hypothesis NoErr is needed only for C05_levels_match_modals (C05_shield_after_fix, C05_intact_after_fix, ...); K6 = a raising closed() remains a known finding.",
+ "C06": " Props/C06b: the lines received by input() are an in-order subsequence of the lines read (C06_order_within_level) under the decidable history hypotheses NoReadyCovered and NoReadyReentry, both shown necessary by kernel-checked counterexamples replayed on the real code (known findings K5, K5r).",
+ "C07": " Props/C07b: the library's own dialogs (YesNoDialog, PasswordDialog, HelpScreen, ErrorDialog, GetInputScreen) - return value and remembered state line by line and over sequences; compared with the real classes.",
+ "C08": " After F11: the closed() callback is called only for an accepted close request (C08_close_step / C08_close_refused).",
+ "C11": " Props/C11b: textwrap.wrap as modelled equals an independently defined greedy packing of its chunks (C11_wrap_eq_greedy), no word lost or repeated, the true maximality statement.",
+ "C13": " Props/C13b: the layout hypothesis LayoutOK is discharged from the render itself (RespectsWidth per widget kind by mutual induction; exact exceptions with kernel-checked counterexamples), giving placement theorems with hypotheses on the inputs only.",
+ "C15": " Props/C15b: ColumnWidget composition (Model/Column.lean): every character of every widget at its place, nothing else but blanks, disjoint rectangles, without assuming widgets respect their width.",
+ "C16": " Props/C16b: state independence of ColumnWidget and EntryWidget; structure check of the rendering modules (no module-level state).",
+}
+for k, v in LATER.items():
+    t = CLAIMED[k]; CLAIMED[k] = (t[0] + v,) + tuple(t[1:])
+CLAIMED["C13"] = (CLAIMED["C13"][0], CLAIMED["C13"][1], CLAIMED["C13"][2].replace("Placement theorems assume every drawn grid respects the width it was rendered for (hypothesis LayoutOK, discharged for TextWidget items by C11).",
+                  "The layout hypothesis of the placement theorems is discharged in Props/C13b except for forced column widths and the other exceptions stated there."))
+CLAIMED["C16"] = (CLAIMED["C16"][0], CLAIMED["C16"][1], CLAIMED["C16"][2].replace("ColumnWidget only as used by CheckboxWidget;", "ColumnWidget / EntryWidget as top-level objects (Model/Column.lean), not as container items;"))
 TECH = "Lean 4 theorems over a hand-written executable model + differential correspondence check model vs implementation + Python oracle on the implementation"
 checks = []; na = []
 for p in props:
@@ -95,6 +112,6 @@ m = {"version": 1, "setup_cmd": "./setup.sh",
      "engines": [{"name": "lean-model+correspondence", "path": "lean/ harness/ check", "serves_properties": [c["property_id"] for c in checks],
                   "kind_free_text": "Lean 4 model and theorems (lean/Simpleline), native model driver (lean/Driver), Python correspondence harness and oracles (harness/)"}],
      "checks": checks, "not_applicable": na,
-     "notes": "fix: commits in /repo repair the defects recorded as 'fixed' in known_findings.json; see DESIGN.md section 8."}
+     "notes": "fix: commits in /repo repair the defects recorded as 'fixed' in known_findings.json (F1-F11); see DESIGN.md sections 13 and 16."}
 json.dump(m, open(os.path.join(HERE, "MANIFEST.json"), "w"), indent=1)
 print("claimed:", [c["property_id"] for c in checks], "not applicable:", [x["property_id"] for x in na])
